@@ -209,6 +209,12 @@ pub fn gen_program(r: &mut Rng, max_q: usize, with_nonunitary: bool) -> Program 
         decls.push("qreg q[2];".into());
         env.qregs.push(("q".into(), 2));
     }
+    if with_nonunitary && env.cregs.len() == 2 && r.chance(1, 2) {
+        // a third classical register: the middle one is then neither the first nor the last of the classical bits
+        let cs = r.range(1, 2);
+        decls.push(format!("creg k[{cs}];"));
+        env.cregs.push(("k".to_string(), cs));
+    }
     // gate definitions
     let ngates = r.below(4);
     let mut gnames: Vec<&str> = GNAMES.to_vec();
@@ -293,6 +299,17 @@ pub fn gen_program(r: &mut Rng, max_q: usize, with_nonunitary: bool) -> Program 
                 if let Some(c) = gen_builtin_call(r, &qubits, &regs, &[]) {
                     stmts.push(format!("if({cn}=={v}) {c}"));
                 }
+            }
+            10 if env.cregs.len() >= 3 && r.chance(1, 2) => {
+                // a guard on the middle classical register while a later register holds a 1
+                let (c2, s2) = env.cregs[1].clone();
+                let (c3, _) = env.cregs[2].clone();
+                let qa = r.pick(&qubits).clone();
+                stmts.push(format!("reset {qa};"));
+                stmts.push(format!("x {qa};"));
+                stmts.push(format!("measure {qa} -> {c3}[0];"));
+                let v = if r.chance(2, 3) { 0 } else { r.below(1 << s2) };
+                stmts.push(format!("if({c2}=={v}) x {};", r.pick(&qubits)));
             }
             10 => {
                 // guard chain: two `if`s on the same classical register with nothing but a bit-form measurement of a
